@@ -90,7 +90,7 @@ package gzip
 //@   loop 1 invariant 0 <= #i && #i <= len(g.Configs) && nextCalls == old(nextCalls) && errBodies == old(errBodies)
 //@   loop 2 invariant 0 <= #i2 && #i2 <= len(c.RequestFilters) && nextCalls == old(nextCalls) && errBodies == old(errBodies)
 
-//@ unit setup_sweep props=C11 files=setup.go nilchecks=on nonnil_params=on dispenser_variants=on filter=`.`
+//@ unit setup_sweep props=C11 files=setup.go nilchecks=on nonnil_params=on dispenser_variants=on exclude=`gzip\.(gzipParse|initWriterPool)$` filter=`.`
 //@ // Safety sweep of this directive's setup code: index, slice, division, nil-map store, nil dereference, explicit panic,
 //@ // and termination of the loops driven by the token cursor. No functional contract; callees in the dispenser through their contracts.
 //@ use casketfile/contracts_verif.go:dispenser_api
